@@ -1,6 +1,6 @@
 (* C09 — rolling operations are per-group sliding-window reductions. *)
 From Coq Require Import List ZArith Bool.
-From GL Require Import Lib.Arr Lib.Keyed Model.Dom Model.Rolling Proofs.RowGeneric.
+From GL Require Import Lib.Arr Lib.Keyed Model.Dom Model.Rolling Proofs.RowGeneric Proofs.RollingInv.
 Import ListNotations.
 Open Scope Z_scope.
 
@@ -50,3 +50,47 @@ Print Assumptions C09_sum_mask_is_filter.
 Print Assumptions C09_ext_mask_is_filter.
 Print Assumptions C09_shift_mask_is_filter.
 Print Assumptions C09_sum_null_keys.
+
+(* ---- the circular buffer (single group, selected rows in row order) ---- *)
+
+(* once `window` rows have been seen, the cell about to be overwritten holds the value seen
+   `window` rows earlier: the one leaving the window *)
+Theorem C09_evicted_value {V} (nullv : V) w l : (0 < w)%nat -> (w <= length l)%nat ->
+  get nullv (fst (buf_of nullv w l)) (snd (buf_of nullv w l)) = nth (length l - w) l nullv.
+Proof. exact (evicted_value nullv w l). Qed.
+Print Assumptions C09_evicted_value.
+
+(* shift returns exactly the value `window` group-rows earlier (an input value: nothing is computed),
+   diff the difference to it; null while fewer than `window` earlier rows exist *)
+Theorem C09_shift_diff {V} (o : ops V) w ws l v : (0 < w)%nat ->
+  snd (shift_step o w ws (run_shift o w ws l) (v, true)) =
+    if (length l <? w)%nat then null o
+    else let old := nth (length l - w) l (null o) in
+         if ws then old else if is_null o v || is_null o old then null o else sub o v old.
+Proof. exact (shift_output o w ws l v). Qed.
+Print Assumptions C09_shift_diff.
+
+(* rolling sum / mean: the sum (mean) of the non-null values among the last `window` selected rows of
+   the group ending at this row, null unless at least min_periods of them are non-null *)
+Theorem C09_sum_mean_float w mp wm l v : (0 < w)%nat ->
+  snd (sum_step fops w mp wm (run_sum fops w mp wm l) (v, true)) =
+    let q := lastn w (l ++ [v]) in
+    if mp <=? window_nn fops q then (if wm then divc fops (window_sum fops q) (window_nn fops q) else window_sum fops q) else null fops.
+Proof. exact (sum_output fops fops_laws fops_sum_closed fops_sub_add_cancel w mp wm l v). Qed.
+Print Assumptions C09_sum_mean_float.
+
+Theorem C09_sum_mean_int nullv w mp wm l v : (0 < w)%nat ->
+  let o := zops false nullv in
+  snd (sum_step o w mp wm (run_sum o w mp wm l) (v, true)) =
+    let q := lastn w (l ++ [v]) in
+    if mp <=? window_nn o q then (if wm then divc o (window_sum o q) (window_nn o q) else window_sum o q) else null o.
+Proof.
+  exact (sum_output (zops false nullv) (zops_laws false nullv) (zops_never_null_closed nullv)
+           (fun a b _ _ => zops_sub_add_cancel false nullv a b) w mp wm l v).
+Qed.
+Print Assumptions C09_sum_mean_int.
+
+Example C09_example :
+  (snd (sum_step (zops false 0) 3 2 false (run_sum (zops false 0) 3 2 false [5; 1; 2; 7]) (10, true)) = 19) /\
+  (snd (shift_step (zops false 0) 2 true (run_shift (zops false 0) 2 true [5; 1; 2; 7]) (10, true)) = 2).
+Proof. split; vm_compute; reflexivity. Qed.
